@@ -43,7 +43,11 @@ RULE = ('trees to depth 4 over And/Or/Not/Switch (with and without default=) who
         'pool x 6 operators (thorough) / a sample (quick); constructor errors; every tree is ALSO evaluated '
         'as ONE spec object on all its targets - consecutive glom calls, and one call over the list of '
         'targets - each call judged against its own target (state kept in a spec object shows up); '
-        'operator trees put constructor-built And / Or with default= on either side. non-trivial = the tree has a '
+        'operator trees put constructor-built And / Or with default= on either side; PROGRAMS over spec objects: '
+        'sub-trees are bound to names, evaluated on some targets, then used as operands of & | ~ (extended, '
+        'shared by several trees, negated), the results evaluated and extended again, the operands evaluated '
+        'again at the end - every evaluation judged against the constructor-built tree its object denotes. '
+        'non-trivial = the tree has a '
         'combinator with >= 2 children, or a Check with >= 1 condition, or the outcome is not a plain pass; '
         'distinct = distinct (spec or operator expression, target)')
 TRUSTED = ["Python's ==, <, <=, >, >=, bool(), isinstance, type() and item access on the generated tree "
@@ -927,6 +931,8 @@ def generate(rng, tier, scale, **focus):
             yield {'ops': ops, 'target': t}
         if rng.random() < 0.5:
             yield from seq_cases(rng, {'ops': ops}, ts)
+    # programs: operands that are objects which exist (and have been evaluated) already
+    yield from prog_cases(rng, (300 if quick else 12000) * scale)
     yield from check_cases(rng, (5 if quick else 60) * scale)
     yield from msub_cases(rng, (300 if quick else 6000) * scale)
     yield from scalar_tree_cases(rng, (150 if quick else 4000) * scale)
@@ -948,6 +954,8 @@ def corpus():
 
 
 def key(case):
+    if case.get('prog') is not None:
+        return {'prog': case['prog']}
     return {'spec': case.get('spec'), 'ops': case.get('ops'), 'target': case.get('target'),
             'targets': case.get('targets')}
 
@@ -978,6 +986,15 @@ def _count(j, pred):
 
 
 def nontrivial(case, verdict):
+    if case.get('prog') is not None:
+        # an object is evaluated and afterwards used as an operand (or the other way round)
+        seen_eval = set()
+        for st in case['prog']:
+            if 'eval' in st:
+                seen_eval.add(st['eval'])
+            elif any(_count(st['def'], lambda d, i=i: d.get('use') == i) for i in seen_eval):
+                return True
+        return False
     j = case.get('ops', case.get('spec'))
     if 'ops' in case and _count(j, lambda d: 'and' in d or 'or' in d) >= 1:
         return True
@@ -989,6 +1006,71 @@ def nontrivial(case, verdict):
                                                         ('type', 'instance_of', 'equal_to', 'one_of', 'validate'))):
         return True
     return not verdict.get('branch', '').endswith(':pass')
+
+
+def _renumber(j, k):
+    """operator expression after def k was removed (it is not used)"""
+    if 'use' in j:
+        return {'use': j['use'] - 1 if j['use'] > k else j['use']}
+    if 'leaf' in j:
+        return j
+    if 'inv' in j:
+        return {'inv': _renumber(j['inv'], k)}
+    kk = 'and' if 'and' in j else 'or'
+    return {kk: [_renumber(j[kk][0], k), _renumber(j[kk][1], k)]}
+
+
+def shrink_prog(prog):
+    """shorter programs: cut the tail, drop evaluations, drop unused defs, replace an operator
+    by one of its operands"""
+    n = len(prog)
+    for cut in range(1, n):
+        if 'eval' in prog[cut - 1]:
+            yield {'prog': prog[:cut]}
+    for i in range(n - 1, -1, -1):
+        if 'eval' in prog[i] and n > 1:
+            yield {'prog': prog[:i] + prog[i + 1:]}
+    # def number k at position i, unused by later defs and evaluations
+    k = -1
+    for i, st in enumerate(prog):
+        if 'def' not in st:
+            continue
+        k += 1
+        later = prog[i + 1:]
+        used = any(('eval' in x and x['eval'] == k) or
+                   ('def' in x and _count(x['def'], lambda d: d.get('use') == k)) for x in later)
+        if not used:
+            out = prog[:i]
+            for x in later:
+                if 'eval' in x:
+                    out.append(dict(x, eval=x['eval'] - 1 if x['eval'] > k else x['eval']))
+                else:
+                    out.append({'def': _renumber(x['def'], k)})
+            yield {'prog': out}
+
+    def opv(j):
+        if 'leaf' in j or 'use' in j:
+            return
+        if 'inv' in j:
+            yield j['inv']
+            for v in opv(j['inv']):
+                yield {'inv': v}
+            return
+        kk = 'and' if 'and' in j else 'or'
+        a, b = j[kk]
+        yield a
+        yield b
+        for v in opv(a):
+            yield {kk: [v, b]}
+        for v in opv(b):
+            yield {kk: [a, v]}
+    for i, st in enumerate(prog):
+        if 'def' in st:
+            for v in opv(st['def']):
+                yield {'prog': prog[:i] + [{'def': v}] + prog[i + 1:]}
+    for i, st in enumerate(prog):
+        if 'eval' in st and st.get('bare'):
+            yield {'prog': prog[:i] + [{k2: v for k2, v in st.items() if k2 != 'bare'}] + prog[i + 1:]}
 
 
 def shrink(case):
@@ -1053,6 +1135,9 @@ def shrink(case):
             for v in opvariants(j['inv']):
                 yield {'inv': v}
 
+    if base.get('prog') is not None:
+        yield from shrink_prog(base['prog'])
+        return
     if 'targets' in base:
         # fewer calls first, then a smaller spec
         ts = base['targets']
